@@ -79,14 +79,14 @@ def registry():
                      'receiver classes by class-hierarchy analysis on method names (no type checker available)',
                      'Function.pullback dispatch expression as extracted by tracer_proto.dispatch_shape'])
     reg['C06'] = dict(
-        rules=[T.rule_pb_ro, T.rule_sweep_init, T.rule_sweep_balance, T.rule_setitem_copy, T.rule_x_writers, T.rule_drv_fresh, T.rule_seed_copy, T.rule_global, T.rule_doc],
+        rules=[T.rule_pb_ro, T.rule_sweep_init, T.rule_sweep_balance, T.rule_setitem_copy, T.rule_x_writers, T.rule_drv_fresh, T.rule_seed_copy, T.rule_global, T.rule_doc] + ([G.rule_out_defined] if G is not None else []),
         explanation='Static decision of the state discipline that makes results a function of the call\'s arguments only. '
                     'Decides: pullbacks never write forward values or incoming adjoints (R-pb-ro, E1 effects); adjoints are '
                     're-initialised unconditionally for every node before every sweep and xbar_from_x ignores the previous xbar '
                     '(R-sweep-init); buffer roll-back is matched by a roll-forward that redoes the writes in recording order (R-sweep-balance); node.x has a closed set of '
                     'writers (R-x-writers); nothing captured at recording time survives a forward evaluation, incl. recorded '
                     'keyword arguments (R-drv-fresh); user seeds are copied, not captured (R-seed-copy); the global recording '
-                    'pointer and graph lists have a closed set of writers and replay cannot record (R-global). NOT decided: '
+                    'pointer and graph lists have a closed set of writers and replay cannot record (R-global); forward kernels do not read an output buffer before defining it when a user-supplied or re-used buffer can reach it (C06.out-defined). NOT decided: '
                     'equality of results across concrete histories.',
         assumptions=['library summary tables of verif/effects.py', 'the structural shape of CGraph.pullback (three top-level loops)'])
     if A is not None:
@@ -153,7 +153,7 @@ def registry():
         reg['C08'] = dict(
             rules=[G.rule_grade('C08'), lambda ctx: S.rule_base(ctx, ['_cholesky', '_qr_rectangular', '_qr_full', '_eigh1'], 'C08.base'),
                    _only(P.rule_p3, FACT, 'C08.dir-after'), _only(P.rule_p3b, FACT, 'C08.dir-carried'),
-                   _only(P.rule_paxis, FACT, 'C08.dir-const'), _only(P.rule_p4, FACT, 'C08.dir-joint')],
+                   _only(P.rule_paxis, FACT, 'C08.dir-const'), _only(P.rule_p4, FACT, 'C08.dir-joint'), _only(G.rule_out_defined, FACT, 'C08.out-defined')],
             explanation='Static decision of structural conditions of the factorization recurrences: in _qr_rectangular, _qr_full, _cholesky, '
                         '_eigh1, lu, lu2, lu_factor every residual (dF, dG, H, S, K) and every factor coefficient is homogeneous of the order '
                         'being defined (O3) and the residual sums are maximal (O4); base points come from numpy.linalg.qr / scipy.linalg.qr / '
